@@ -1,5 +1,6 @@
 """Shared helpers for the per-property rule files."""
 from facts import AnchorLost, op_place, op_local
+import os
 import prims
 
 RESULT = 'core::result::Result'
@@ -114,10 +115,39 @@ def call_bbs(body, *names, min_sites=1):
     return [s.bb for s in sites]
 
 
+def _local_sig(body, l):
+    """what a user variable IS, independent of what it is called: declared type + the callees, fields and constants of its backward slice"""
+    s = prims.sources(body, l)
+    return [body.local_ty(l), sorted(src_calls(s)), sorted(src_fields(s)), sorted(str(c) for c in src_consts(s))]
+
+
+_ROLES = None
+
+
+def _roles():
+    global _ROLES
+    if _ROLES is None:
+        import json
+        p = os.path.join(os.path.dirname(os.path.abspath(__file__)), 'local_roles.json')
+        _ROLES = json.load(open(p)) if os.path.exists(p) else {}
+    return _ROLES
+
+
 def named_local(body, name):
+    """The user variable(s) called `name` in body.  When no variable has that name any more (a rename), fall back to the variables
+    whose signature (type + slice callees / fields / constants) equals the one recorded for (function, name) on the audited tree
+    in rules/local_roles.json (tools/gen_local_roles.py): a rename alone does not lose the anchor."""
     ls = [i for i, l in enumerate(body.locals) if len(l) > 1 and l[1] == name]
     if not ls:
-        raise AnchorLost(f"{body.fn}: no local named {name}")
+        want = _roles().get(f'{body.fn}|{name}')
+        if want:
+            ls = [i for i, l in enumerate(body.locals) if len(l) > 1 and l[1] and i > body.argc and _local_sig(body, i) in want]
+    if not ls:
+        raise AnchorLost(f"{body.fn}: no local named {name} (and no variable with its recorded signature)")
+    if os.environ.get('VERIF_TRACE_NAMED'):
+        import json
+        import sys
+        print('NAMED ' + json.dumps({'k': f'{body.fn}|{name}', 'sigs': [_local_sig(body, l) for l in ls]}), file=sys.stderr)
     return ls
 
 
@@ -272,3 +302,31 @@ def equality_tests(F, body, through=()):
             te, fe = fe, te
         out.append((t.bb, neg, prims.sources(body, t.d['a'][0], through=through), prims.sources(body, t.d['a'][1], through=through), te, fe))
     return out
+
+
+def role_local(body, name, ty=None, calls=None, fields=None, consts=None, through=()):
+    """The locals playing a role in a rule, found by WHAT THEY ARE rather than by what they are called: declared type `ty`
+    (exact, or prefix when it ends with '*') and a backward slice that contains a call to one of `calls` (suffix match) /
+    a read of one of `fields` ('name' of 'name:Adt') / one of the constants `consts`.  The source name is only the fall-back
+    when the description matches nothing (so a rename does not lose the anchor, and a reshaped definition does not either)."""
+    def ty_ok(t):
+        if ty is None:
+            return True
+        return t.startswith(ty[:-1]) if ty.endswith('*') else t == ty
+    out = []
+    for l in range(len(body.locals or ())):
+        if l <= body.argc or not ty_ok(body.local_ty(l)):
+            continue
+        if not body.local_name(l):
+            continue   # roles are user variables; compiler temporaries are reached through them
+        s = prims.sources(body, l, through=through)
+        if calls is not None and not any(c.endswith(tuple(calls)) for c in src_calls(s)):
+            continue
+        if fields is not None and not any(f.split(':')[0] in fields for f in src_fields(s)):
+            continue
+        if consts is not None and not (set(consts) & set(src_consts(s))):
+            continue
+        out.append(l)
+    if out:
+        return out
+    return named_local(body, name)
